@@ -37,6 +37,6 @@ def fxHandlerCloseWithErrors : List String :=
 /-- reviewed 2026-09-24 after fix 305bbf1: the leading `if{ return }` is the refusal to commit under a cancelled
     context; nothing is written before it -/
 def fxTransactionCommit : List String :=
-  ["if{", "return", "}", "if{", "loop{", "truncate", "if{", "return", "}", "seek", "if{", "return", "}", "encode", "if{", "return", "}", "if{", "write", "if{", "return", "}", "}", "}", "}", "if{", "loop{", "truncate", "if{", "return", "}", "seek", "if{", "return", "}", "encode", "if{", "return", "}", "if{", "write", "if{", "return", "}", "}", "}", "}", "loop{", "handler_commit", "if{", "return", "}", "}", "loop{", "handler_commit", "if{", "return", "}", "}", "if{", "return", "}"]
+  ["if{", "return", "}", "if{", "loop{", "truncate", "if{", "return", "}", "seek", "if{", "return", "}", "encode", "if{", "return", "}", "if{", "if{", "return", "}", "write", "if{", "return", "}", "}", "}", "}", "if{", "loop{", "truncate", "if{", "return", "}", "seek", "if{", "return", "}", "encode", "if{", "return", "}", "if{", "if{", "return", "}", "write", "if{", "return", "}", "}", "}", "}", "loop{", "handler_commit", "if{", "return", "}", "}", "loop{", "handler_commit", "if{", "return", "}", "}", "if{", "return", "}"]
 
 end Csvq.Ref
